@@ -60,7 +60,8 @@ def gen_session_action(rng: random.Random, sess: int, tokens: Tokens,
 def gen_concurrent_case(rng: random.Random, tier: str, backends=('dict',),
                         min_sessions: int = 2, max_sessions: int = 4,
                         weights=None, len_range=(10, 40),
-                        hold_p: float = 0.08) -> dict:
+                        hold_p: float = 0.08,
+                        examine_p: float = 0.2) -> dict:
     """2-4 sessions on one mailbox, several acting per step."""
     n = rng.randint(min_sessions, max_sessions)
     tokens = Tokens()
@@ -80,7 +81,10 @@ def gen_concurrent_case(rng: random.Random, tier: str, backends=('dict',),
     cfg = {'backend': backend, 'users': [USER],
            'buggify': pick_buggify(rng), 'buggify_p': rng.choice([0.1, 0.3,
                                                                   0.6])}
-    steps = setup_steps(n, initial=initial)
+    # some sessions only EXAMINE: their STORE/EXPUNGE/MOVE are refused, they
+    # must still be told everything (session 0 always selects read-write)
+    examine = [i for i in range(1, n) if rng.random() < examine_p]
+    steps = setup_steps(n, initial=initial, examine=examine)
     hi = 100 + n_init
     maxn = max(1, n_init)
     idling: set[int] = set()
